@@ -498,3 +498,65 @@ def reach_dtime_year(y: int) -> int:
     post: _ != 0
     """
     return dtime_year_check(y)
+
+
+# ------------------------------------------------------------------ real str texts at length thresholds (round 6)
+
+TL_EDGES = [1, 8, 16, 32, 64, 100, 128, 200, 255, 256, 512, 1000, 1024, 4096, 16384, 65536]
+N_TL = len(TL_EDGES) if THOROUGH else len(TL_EDGES) - 2     # quick: up to 4096 characters
+
+
+def real_text_len_check(ci, n):
+    """A real str of n ASCII characters (not the LenStr stand-in: an encoder that asks isinstance(value, str) or looks at
+    len(value) takes other paths for it) through the write_struct dispatch under IDENT and ASCII, and through write_struct_ident directly: IDENT =
+    one USHORT length byte + the characters, more than 255 characters refused; ASCII = UVARI length + the characters."""
+    ident = ci != 1
+    s = ''.join(chr(65 + (i * 7 + n) % 26) for i in range(n))
+    try:
+        if ci == 2:
+            r = sw.write_struct_ident(s)          # labels, units, set / object names come this way
+        else:
+            r = write_struct(RepC.ASCII if ci == 1 else RepC.IDENT, s)
+    except (struct.error, ValueError):
+        return 0 if (ident and n > 255) else 1
+    if ident and n > 255:
+        return 2
+    b = lits(r)
+    if b is None:
+        return 3
+    pre = [n] if ident else uvari_expect(n)
+    if len(b) != len(pre) + n:
+        return 4
+    for i in range(len(pre)):
+        if b[i] != pre[i]:
+            return 5
+    for i in range(n):
+        if b[len(pre) + i] != ord(s[i]):
+            return 6
+    return 0
+
+
+def _tl_run(ci, n):
+    # both concrete; long texts run outside the tracer (nothing symbolic is left, tracing 4000 characters costs minutes)
+    if n > 40:
+        from vf.harness.objmodel import untraced
+        with untraced():
+            return real_text_len_check(ci, n)
+    return real_text_len_check(ci, n)
+
+
+def ob_text_len_edges(ci: int, k: int, d: int) -> int:
+    """
+    Enumerated window (concrete texts): lengths TL_EDGES +- 1 x IDENT / ASCII by dispatch / IDENT direct.
+    pre: 0 <= ci <= 2 and 0 <= k < N_TL and -1 <= d <= 1
+    post: _ == 0
+    """
+    return _tl_run(realize(ci), realize(TL_EDGES[realize(k)] + realize(d)))
+
+
+def reach_text_len_edges(ci: int, k: int, d: int) -> int:
+    """
+    pre: 0 <= ci <= 2 and 0 <= k < N_TL and -1 <= d <= 1
+    post: _ != 0
+    """
+    return _tl_run(realize(ci), realize(TL_EDGES[realize(k)] + realize(d)))
